@@ -10,8 +10,8 @@ let z_of_int (i : int) : z = if i = 0 then Z0 else if i > 0 then Zpos (pos_of_in
 
 let () =
   let fx = { fx_clone = c04_REQ_CLONE_FIXED; fx_cancel = c04_REQ_CANCEL_SEND_FIXED; fx_stash = c04_REQ_STASH_FIXED; fx_rdclr = c04_REQ_RDCLR_FIXED } in
-  let pf = { pf_rclose = c04_REP_RCLOSE_FIXED; pf_nbsend = c04_REP_NBSEND_FIXED; pf_saio = c04_REP_SAIO_FIXED } in
-  let mf = { mf_nb = c04_MSGQ_NB_FIXED; mf_resize = c04_MSGQ_RESIZE_FIXED } in
+  let pf = { pf_rclose = c04_REP_RCLOSE_FIXED; pf_nbsend = c04_REP_NBSEND_FIXED; pf_saio = c04_REP_SAIO_FIXED; pf_wbusy = c04_REP_WBUSY_FIXED } in
+  let mf = { mf_nb = c04_MSGQ_NB_FIXED; mf_resize = c04_MSGQ_RESIZE_FIXED; mf_getput = c04_MSGQ_GET_RUNS_PUTQ } in
   register "req0" (fun () -> mk_proto req_init (req_step fx) req_poll true);
   register "rep0" (fun () -> mk_proto rep_init (rep_step pf) rep_poll false);
   register "req0_raw" (fun () -> mk_proto xreq_init (xreq_step mf) xreq_poll false);
